@@ -4,6 +4,7 @@
 verus! {
 spec fn holds_non_zset(s: SV, key: Vec<u8>) -> bool { s.data.contains_key(key) && !(s.data[key].value is SortedSet) }
 spec fn holds_non_stream(s: SV, key: Vec<u8>) -> bool { s.data.contains_key(key) && !(s.data[key].value is Stream) }
+spec fn stream_at(s: SV, key: Vec<u8>) -> Option<Stream> { if s.data.contains_key(key) { match s.data[key].value { Value::Stream(st) => Some(st), _ => None } } else { None } }
 
 impl StorageEngine {
 //@@ unit zadd fn src/storage/engine.rs StorageEngine::zadd
@@ -60,6 +61,42 @@ impl StorageEngine {
             // the stream object stays in place whatever was deleted
             eff(*old(shard_guard), key_of(key@)).data.contains_key(key_of(key@)) ==> sv(*final(shard_guard)).data == eff(*old(shard_guard), key_of(key@)).data && sv(*final(shard_guard)).exp == eff(*old(shard_guard), key_of(key@)).exp,
             r matches Ok(n) ==> n > 0 ==> marks(sv(*final(shard_guard))).contains(key@),
+//@@ body
+//@@ end
+
+// ---- stream reads (C15: XRANGE / XREVRANGE / XLEN): the engine hands bounds, count and DIRECTION to the stream object unchanged, answers
+// from the stream stored under the key (after the lazy purge), refuses another type, and writes nothing
+//@@ unit xrange fn src/storage/engine.rs StorageEngine::xrange
+//@@   params drop "db: DatabaseIndex" add "shard_guard: &mut DatabaseShard"
+//@@   rewrite R2
+    fn xrange(&self, shard_guard: &mut DatabaseShard, key: &[u8], start: StreamId, end: StreamId, count: Option<usize>) -> (r: Result<Vec<StreamEntry>>)
+        ensures
+            unchanged(eff(*old(shard_guard), key_of(key@)), sv(*final(shard_guard))),
+            holds_non_stream(eff(*old(shard_guard), key_of(key@)), key_of(key@)) ==> r is Err,
+            !eff(*old(shard_guard), key_of(key@)).data.contains_key(key_of(key@)) ==> (r matches Ok(v) && v@.len() == 0),
+            stream_at(eff(*old(shard_guard), key_of(key@)), key_of(key@)) matches Some(st) ==> (r matches Ok(v) && v@ == spec_stream_range(st, start, end, count, false)),
+//@@ body
+//@@ end
+//@@ unit xrevrange fn src/storage/engine.rs StorageEngine::xrevrange
+//@@   params drop "db: DatabaseIndex" add "shard_guard: &mut DatabaseShard"
+//@@   rewrite R2
+    fn xrevrange(&self, shard_guard: &mut DatabaseShard, key: &[u8], start: StreamId, end: StreamId, count: Option<usize>) -> (r: Result<Vec<StreamEntry>>)
+        ensures
+            unchanged(eff(*old(shard_guard), key_of(key@)), sv(*final(shard_guard))),
+            holds_non_stream(eff(*old(shard_guard), key_of(key@)), key_of(key@)) ==> r is Err,
+            !eff(*old(shard_guard), key_of(key@)).data.contains_key(key_of(key@)) ==> (r matches Ok(v) && v@.len() == 0),
+            stream_at(eff(*old(shard_guard), key_of(key@)), key_of(key@)) matches Some(st) ==> (r matches Ok(v) && v@ == spec_stream_range(st, start, end, count, true)),
+//@@ body
+//@@ end
+//@@ unit xlen fn src/storage/engine.rs StorageEngine::xlen
+//@@   params drop "db: DatabaseIndex" add "shard_guard: &mut DatabaseShard"
+//@@   rewrite R2
+    fn xlen(&self, shard_guard: &mut DatabaseShard, key: &[u8]) -> (r: Result<usize>)
+        ensures
+            unchanged(eff(*old(shard_guard), key_of(key@)), sv(*final(shard_guard))),
+            holds_non_stream(eff(*old(shard_guard), key_of(key@)), key_of(key@)) ==> r is Err,
+            !eff(*old(shard_guard), key_of(key@)).data.contains_key(key_of(key@)) ==> r == Ok::<usize, FerrousError>(0),
+            stream_at(eff(*old(shard_guard), key_of(key@)), key_of(key@)) matches Some(st) ==> r == Ok::<usize, FerrousError>(spec_stream_len(st)),
 //@@ body
 //@@ end
 
